@@ -2,11 +2,11 @@ SPECIFICATION Spec
 CONSTANTS
   RootLens <- QF_RootLens
   Classes <- RadioClasses
-  NChans <- FF_NChans
+  NChans <- QF_NChans
   Aligns <- AllAligns
   TBounds <- QF_TBounds
   TSteps <- QF_TSteps
-  FBounds <- FF_FBounds
+  FBounds <- QF_FBounds
   XBounds <- QF_XBounds
   XSteps <- Q_XSteps
   Shifts <- Q_Shifts
@@ -15,7 +15,7 @@ CONSTANTS
   SnipT <- Q_SnipT
   SnipN <- Q_SnipN
   Ops <- FreqOps
-  MaxDepth = 2
+  MaxDepth = 3
   Fixed = TRUE
   SampleK = 0
   SampleRoots = 0
